@@ -62,7 +62,7 @@ def run(F, R, tier):
                     a0 = peel(ext[0]["args"][0])
                     bom = [peel(x).get("v") for x in a0.get("args", [])] if a0.get("k") == "Array" else None
                     a1 = peel_value(ext[1]["args"][0])
-                    ok = bom == [0xEF, 0xBB, 0xBF] and a1.get("k") == "MethodCall" and a1["name"] == "as_bytes" and peel_value(a1["recv"]).get("field") == "text" and may_reach(F, ext[0], ext[1]) and not may_reach(F, ext[1], ext[0])
+                    ok = bom == [0xEF, 0xBB, 0xBF] and a1.get("k") == "MethodCall" and a1["name"] == "as_bytes" and field_of(a1["recv"]) == "text" and may_reach(F, ext[0], ext[1]) and not may_reach(F, ext[1], ext[0])
                 R.ob("C20-b", "BOM-stripped text is restored as EF BB BF + text bytes", ok, "OnlyUtf8Bom arm no longer prepends exactly the UTF-8 BOM to the stored text", where(arm["body"]))
             elif name == "Unchanged":
                 R.ob("C20-b", "only the Unchanged arm reinterprets the stored text", len(unsafe) == 1, "unsafe blocks in Unchanged arm: %d" % len(unsafe), where(arm["body"]))
